@@ -82,7 +82,7 @@ fn unhex_bytes(s: &str) -> Vec<u8> {
     (0..s.len() / 2).map(|i| u8::from_str_radix(&s[2 * i..2 * i + 2], 16).unwrap()).collect()
 }
 
-const MODES: [RoundingMode; 8] = [
+pub const MODES: [RoundingMode; 8] = [
     RoundingMode::Round05Up,
     RoundingMode::RoundCeiling,
     RoundingMode::RoundDown,
@@ -224,7 +224,7 @@ macro_rules! fromint_body {
     }};
 }
 
-fn derr(e: fpdec::DecimalError) -> String {
+pub fn derr(e: fpdec::DecimalError) -> String {
     use fpdec::DecimalError::*;
     match e {
         MaxNFracDigitsExceeded => "E maxfrac",
@@ -246,7 +246,7 @@ fn perr(e: fpdec::ParseDecimalError) -> String {
     .to_string()
 }
 
-fn hash_of<T: std::hash::Hash>(t: &T) -> u64 {
+pub fn hash_of<T: std::hash::Hash>(t: &T) -> u64 {
     use std::hash::Hasher;
     let mut s = std::collections::hash_map::DefaultHasher::new();
     t.hash(&mut s);
@@ -330,6 +330,39 @@ fn run(line: &str) -> String {
         "ii" => by_ty!(ty, ii_body, op, hex(a[0]), hex(a[1]), nn(2)),
         "un" => un(op, ty, dec(a[0], a[1]), &a[2..]),
         "frm" => forms::run(op, ty, a),
+        "thr" => forms::threads(op, a),
+        "fl" => match op {
+            "f64" => format!("F {:x}", f64::from(dec(a[0], a[1])).to_bits()),
+            "f32" => format!("F {:x}", f32::from(dec(a[0], a[1])).to_bits()),
+            "fromf64" => match Decimal::try_from(f64::from_bits(uhex(a[0]) as u64)) {
+                Ok(d) => v(d),
+                Err(e) => derr(e),
+            },
+            "fromf32" => match Decimal::try_from(f32::from_bits(uhex(a[0]) as u32)) {
+                Ok(d) => v(d),
+                Err(e) => derr(e),
+            },
+            "ratio" => {
+                let d = dec(a[0], a[1]);
+                let (n, m) = d.as_integer_ratio();
+                let same = n == d.numerator() && m == d.denominator();
+                let hs = hash_of(&d) == hash_of(&(n, m));
+                if same && hs {
+                    format!("Q {} {}", h(n), h(m))
+                } else {
+                    format!("X! ratio {} {} same={} hash={}", h(n), h(m), same, hs)
+                }
+            }
+            // hash equality across two representations: B 1 iff (x == y) implies hash(x) == hash(y)
+            "hasheq" => {
+                let (x, y) = (dec(a[0], a[1]), dec(a[2], a[3]));
+                let mut set = std::collections::HashSet::new();
+                set.insert(x);
+                let found = set.contains(&y);
+                b(!(x == y) || (hash_of(&x) == hash_of(&y) && found))
+            }
+            _ => "X".to_string(),
+        },
         "cv" => match op {
             "fromint" => by_ty!(ty, fromint_body, hex(a[0])),
             "fromu128" => match Decimal::try_from(uhex(a[0])) {
@@ -346,6 +379,7 @@ fn run(line: &str) -> String {
             },
             _ => "X".to_string(),
         },
+        "str" if op == "tostring" || op == "roundtrip" => un(op, ty, dec(a[0], a[1]), &a[2..]),
         "str" => {
             let bytes = unhex_bytes(a[0]);
             let s = match String::from_utf8(bytes) {
@@ -430,11 +464,26 @@ fn run(line: &str) -> String {
     }
 }
 
+// A thread history is executed in a fresh child process, so that process-wide state
+// (which the property says must not exist) starts from scratch for every history.
+fn run_isolated(line: &str) -> String {
+    let exe = match std::env::current_exe() {
+        Ok(e) => e,
+        Err(_) => return "X".to_string(),
+    };
+    match std::process::Command::new(exe).arg("--one").arg(line).output() {
+        Ok(o) => String::from_utf8_lossy(&o.stdout).trim().to_string(),
+        Err(_) => "X".to_string(),
+    }
+}
+
 fn main() {
     std::panic::set_hook(Box::new(|_| {}));
     let args: Vec<String> = std::env::args().collect();
-    if args.len() > 1 && args[1] == "threads" {
-        forms::threads_main(&args[2..]);
+    if args.len() > 2 && args[1] == "--one" {
+        let line = args[2].clone();
+        let r = catch_unwind(AssertUnwindSafe(|| run(&line)));
+        println!("{}", r.unwrap_or_else(|_| "P".to_string()));
         return;
     }
     let stdin = std::io::stdin();
@@ -444,6 +493,10 @@ fn main() {
         let line = line.unwrap();
         if line.is_empty() || line.starts_with('#') {
             writeln!(out, "#").unwrap();
+            continue;
+        }
+        if line.starts_with("thr.") {
+            writeln!(out, "{}", run_isolated(&line)).unwrap();
             continue;
         }
         let r = catch_unwind(AssertUnwindSafe(|| run(&line)));
